@@ -80,6 +80,31 @@ theorem c17_durable_packet_sink (T : List Nat) (calls : List (Nat × Nat)) :
     (fun k sp s h hk => ncFileSink_call k sp s h hk) _ h0 h1 calls
   exact ⟨conserved_prefix T _ hc, hr.2, hr.1⟩
 
+/-- A failing write or flush (full device, I/O error) in the stream sink: `work()` returns an error
+and nothing is consumed, for every window — so "consumed" keeps meaning "on disk". The generated
+`…WorkChecked` lists record whether each I/O result is propagated with `?`; they describe the same
+call as the generated event order. -/
+theorem c17_failed_io_consumes_nothing (k spill : Nat) (s : St) :
+    Gen.fileSinkWorkChecked.map (·.1) = Gen.fileSinkWork ∧
+    Gen.ncFileSinkWorkChecked.map (·.1) = Gen.ncFileSinkWork ∧
+    (∀ bad ∈ [Ev.write, Ev.flush],
+      (callWithFailure bad k spill Gen.fileSinkWorkChecked s).2 = true ∧
+      (callWithFailure bad k spill Gen.fileSinkWorkChecked s).1.consumed = s.consumed) ∧
+    (∀ bad ∈ [Ev.write, Ev.flush], (callWithFailure bad k spill Gen.ncFileSinkWorkChecked s).2 = true) := by
+  refine ⟨rfl, rfl, ?_, ?_⟩
+  · intro bad hb
+    simp only [List.mem_cons, List.mem_nil_iff, or_false] at hb
+    rcases hb with rfl | rfl <;> simp [Gen.fileSinkWorkChecked, callWithFailure, ev]
+  · intro bad hb
+    simp only [List.mem_cons, List.mem_nil_iff, or_false] at hb
+    rcases hb with rfl | rfl <;> simp [Gen.ncFileSinkWorkChecked, callWithFailure, ev]
+
+/-- Why the `?` matters: with the flush result ignored, a failed flush is followed by the consume. -/
+theorem c17_unchecked_flush_is_unsafe :
+    let r := callWithFailure .flush 2 0 [(.write, true), (.flush, false), (.consume, true)] ⟨[], [], 0, [1, 2]⟩
+    r.2 = false ∧ r.1.consumed = 2 ∧ r.1.file = [] := by
+  decide
+
 /-- Why the order matters: consuming before flushing acknowledges bytes that are not on disk. -/
 theorem c17_consume_first_is_unsafe :
     ∃ st ∈ workStates [.write, .consume, .flush] 2 0 ⟨[], [], 0, [1, 2]⟩, ¬ st.consumed ≤ st.file.length := by
